@@ -23,13 +23,27 @@ def build():
     u.take("acmed/src/logs.rs", "HasLogger", "logs")
     u.module("account", "use crate::*;\nuse crate::shims::*;\nuse crate::logs::HasLogger;\nuse crate::acme_common::error::Error;\n"
              "use std::collections::HashMap;\nuse std::time::SystemTime;")
-    u.raw("account", "pub mod contact { use vstd::prelude::*; verus! { pub struct AccountContact { pub opaque: u8 } impl Clone for AccountContact { fn clone(&self) -> (r: Self) ensures r == *self { AccountContact { opaque: self.opaque } } } } }\n", trusted=True)
+    u.raw("account", "pub mod contact { use vstd::prelude::*; verus! { pub struct AccountContact { pub opaque: u8 } impl Clone for AccountContact { fn clone(&self) -> (r: Self) ensures r == *self { AccountContact { opaque: self.opaque } } } #[verifier::external] impl std::fmt::Display for AccountContact { fn fmt(&self, f: &mut std::fmt::Formatter) -> std::fmt::Result { Ok(()) } } } }\n", trusted=True)
     for t in ["ExternalAccount", "AccountKey", "AccountEndpoint", "Account"]:
         u.take(A, t, "account")
     u.verify(A, "impl HasLogger for Account", "account", props=["C11"])
     u.raw("account", SPEC)
     u.raw("account", STUBS, trusted=True)
     u.raw("account", PROTO_STUBS, trusted=True)
+    SHA = ("T-MAP", r"HashFunction::Sha256\.hash\(", "crate::account::sha256_hash(", None)
+    u.verify(A, "hash_contacts", "account", props=["C11"], fns={"hash_contacts": FnSpec(ret="r", rewrites=[SHA,
+        ("T-ITER", r"contacts\s*\.iter\(\)\s*\.map\(\|(?P<p>\w+)\|\s*(?P<b>[^{}]*?)\)\s*\.collect::<Vec<String>>\(\)\s*\.join\(\"\"\)",
+         lambda m: f"crate::account::texts_joined(contacts, |{m.group('p')}: &contact::AccountContact| -> (s__: String)\n    ensures s__@ == contact_text(*{m.group('p')}) //@C11.fingerprints_cover_everything_they_stand_for\n {{ {m.group('b')} }})", 1)],
+        body_start="broadcast use crate::account::axiom_contact_to_string;", sig="""
+    ensures r@ == contacts_fp(contacts@), //@C11.fingerprints_cover_everything_they_stand_for
+""")})
+    u.verify(A, "hash_key", "account", props=["C11"], fns={"hash_key": FnSpec(ret="r", rewrites=[SHA], sig="""
+    ensures r matches Ok(v) ==> v@ == key_fp(*key), //@C11.fingerprints_cover_everything_they_stand_for
+""")})
+    u.verify(A, "hash_external_account", "account", props=["C11"], fns={"hash_external_account": FnSpec(ret="r", rewrites=[SHA,
+        ("T-MAP", r"(?P<v>\w+)\.extend\((?P<e>[^()]*\.as_bytes\(\))\)", r"\g<v>.extend_from_slice(\g<e>)", None)], sig="""
+    ensures r@ == eab_fp(*ec), //@C11.fingerprints_cover_everything_they_stand_for
+""", at=[("before_tail", None, 1, "proof { assert(msg@ =~= ec.key@ + crate::utf8_bytes(ec.identifier@)); }")])})
     GET = ("T-MAP", r"self\.endpoints\.get\(endpoint_name\)", "crate::shims::eps_get(&self.endpoints, endpoint_name)")
     GETM = ("T-MAP", r"self\.endpoints\.get_mut\(endpoint_name\)", "crate::shims::eps_get_mut(&mut self.endpoints, endpoint_name)")
     u.verify(A, "Account::get_endpoint", "account", props=["C11"], fns={"get_endpoint": FnSpec(ret="r", sig="""
@@ -211,10 +225,17 @@ pub mod shims {
 SPEC = """
 // fingerprints (SHA-256 of the public key PEM / of the contact list / of the binding key and identifier): uninterpreted
 // hash_key: SHA-256 of the PEM of the public key - a function of the key pair only
-pub uninterp spec fn kp_fp(k: KeyPair) -> Seq<u8>;
+pub uninterp spec fn sha256(m: Seq<u8>) -> Seq<u8>;
+pub uninterp spec fn pub_pem(k: KeyPair) -> Seq<u8>;                       // PEM of the public key
+pub uninterp spec fn contact_text(c: contact::AccountContact) -> Seq<char>; // Display of a contact: `<type>:<value>`
+pub uninterp spec fn concat(t: Seq<Seq<char>>) -> Seq<char>;                // Vec<String>::join("")
+pub open spec fn kp_fp(k: KeyPair) -> Seq<u8> { sha256(pub_pem(k)) }
 pub open spec fn key_fp(k: AccountKey) -> Seq<u8> { kp_fp(k.key) }
-pub uninterp spec fn contacts_fp(c: Seq<contact::AccountContact>) -> Seq<u8>;
-pub uninterp spec fn eab_fp(e: ExternalAccount) -> Seq<u8>;
+// the fingerprint of a contact list covers every contact, in order; that of a binding its key and its identifier
+pub open spec fn contacts_fp(c: Seq<contact::AccountContact>) -> Seq<u8> {
+    sha256(crate::utf8_bytes(concat(c.map_values(|x: contact::AccountContact| contact_text(x)))))
+}
+pub open spec fn eab_fp(e: ExternalAccount) -> Seq<u8> { sha256(e.key@ + crate::utf8_bytes(e.identifier@)) }
 // the per-endpoint records of an account (HashMap<String, AccountEndpoint> seen as a map from endpoint names)
 pub open spec fn ep_of(a: Account, name: Seq<char>) -> Option<AccountEndpoint> {
     if eps_map(a.endpoints).dom().contains(name) { Some(eps_map(a.endpoints)[name]) } else { None }
@@ -264,12 +285,24 @@ impl Account {
         ensures final(w).saves <= old(w).saves + 1, r is Ok ==> final(w).saves == old(w).saves + 1 && final(w).saved == Some(*self), final(w).requests == old(w).requests,
             final(w).ca_key == old(w).ca_key, final(w).ca_contacts == old(w).ca_contacts, final(w).ca_eab == old(w).ca_eab { unimplemented!() }
 }
+// HashFunction::Sha256.hash(M)
 #[verifier::external_body]
-fn hash_contacts(contacts: &Vec<contact::AccountContact>) -> (r: Vec<u8>) ensures r@ == contacts_fp(contacts@) { unimplemented!() }
+pub fn sha256_hash(m: &[u8]) -> (r: Vec<u8>) ensures r@ == sha256(m@) { unimplemented!() }
+impl KeyPair {
+    #[verifier::external_body]
+    pub fn public_key_to_pem(&self) -> (r: Result<Vec<u8>, Error>) ensures r matches Ok(v) ==> v@ == pub_pem(*self) { unimplemented!() }
+}
 #[verifier::external_body]
-fn hash_key(key: &AccountKey) -> (r: Result<Vec<u8>, Error>) ensures r matches Ok(v) ==> v@ == key_fp(*key) { unimplemented!() }
+pub broadcast proof fn axiom_contact_to_string(c: &contact::AccountContact, r: String)
+    ensures #[trigger] vstd::string::to_string_from_display_ensures::<contact::AccountContact>(c, r) ==> r@ == contact_text(*c) {}
+// V.iter().map(F).collect::<Vec<String>>().join("")   (rule T-ITER): when what F gives for each element is determined, their concatenation
 #[verifier::external_body]
-fn hash_external_account(ec: &ExternalAccount) -> (r: Vec<u8>) ensures r@ == eab_fp(*ec) { unimplemented!() }
+pub fn texts_joined<T, F: Fn(&T) -> String>(v: &[T], f: F) -> (r: String)
+    requires forall|i: int| 0 <= i < v@.len() ==> f.requires((&#[trigger] v@[i],)),
+    ensures forall|t: Seq<Seq<char>>| t.len() == v@.len()
+        && (forall|i: int, s: String| 0 <= i < v@.len() && #[trigger] f.ensures((&v@[i],), s) ==> s@ == t[i]) ==> r@ == #[trigger] concat(t)
+{ unimplemented!() }
+pub assume_specification [std::string::String::into_bytes] (s: String) -> (r: Vec<u8>) ensures r@ == crate::utf8_bytes(s@);
 
 """
 
